@@ -161,8 +161,17 @@ type prngBytesCase struct {
 	Data []byte
 }
 
-func checkPRNGBytes(c prngBytesCase) *vk.Failure {
+// checkPRNGTotalBytes is the byte-level sub-check prng-total: the first byte
+// selects the generator, the rest is handed to UnmarshalBinary.
+func checkPRNGTotalBytes(c vk.BytesCase) *vk.Failure {
 	vk.Sample("prng-total", c)
+	if len(c.Data) == 0 || len(c.Data) > maxBytesCase {
+		return nil
+	}
+	return checkPRNGBytes(prngBytesCase{Kind: int(c.Data[0]) % len(prngNames), Data: c.Data[1:]})
+}
+
+func checkPRNGBytes(c prngBytesCase) *vk.Failure {
 	name := prngNames[c.Kind]
 	size := prngSizes[c.Kind]
 	src := newSource(c.Kind, 12345)
@@ -208,7 +217,12 @@ func checkPRNGBytes(c prngBytesCase) *vk.Failure {
 	return f
 }
 
-func drawPRNGBytes(t *rapid.T) prngBytesCase {
+func drawPRNGBytes(t *rapid.T) vk.BytesCase {
+	c := drawPRNGBytes1(t)
+	return vk.BytesCase{Data: append([]byte{byte(c.Kind + 6*rapid.IntRange(0, 40).Draw(t, "selhi"))}, c.Data...)}
+}
+
+func drawPRNGBytes1(t *rapid.T) prngBytesCase {
 	c := prngBytesCase{Kind: rapid.IntRange(0, 5).Draw(t, "kind")}
 	size := prngSizes[c.Kind]
 	valid := func(label string) []byte {
@@ -251,7 +265,7 @@ func drawPRNGBytes(t *rapid.T) prngBytesCase {
 }
 
 func TestPRNGTotality(t *testing.T) {
-	vk.Run(t, "prng-total", vk.Opts{Quick: 20000, Thorough: 400000, NoCrumb: true}, drawPRNGBytes, checkPRNGBytes)
+	vk.Run(t, "prng-total", vk.Opts{Quick: 20000, Thorough: 400000, NoCrumb: true}, drawPRNGBytes, checkPRNGTotalBytes)
 }
 
 // ---- HyperLogLog ------------------------------------------------------------------
@@ -548,8 +562,21 @@ func refHLLParse(data []byte) (size uint8, name string, p uint8, reg []uint8, ok
 
 var hllHashNames = []string{"*hash/fnv.sum32", "*hash/fnv.sum32a", "*hash/fnv.sum64", "*hash/fnv.sum64a"}
 
-func checkHLLBytes(c hllBytesCase) *vk.Failure {
+// checkHLLTotalBytes is the byte-level sub-check hll-total: the first byte
+// selects the word size (bit 0) and the receiver (bits 1..: zero value, fnv,
+// fnv-a), the rest is handed to UnmarshalBinary.
+func checkHLLTotalBytes(c vk.BytesCase) *vk.Failure {
 	vk.Sample("hll-total", c)
+	if len(c.Data) == 0 || len(c.Data) > maxBytesCase {
+		return nil
+	}
+	sel := int(c.Data[0])
+	return checkHLLBytes(hllBytesCase{Bits: 32 + 32*(sel&1), RecvHash: (sel>>1)%3 - 1, Data: c.Data[1:]})
+}
+
+func hllSelector(bits, recvHash int) byte { return byte(bits/32 - 1 | (recvHash+1)<<1) }
+
+func checkHLLBytes(c hllBytesCase) *vk.Failure {
 	name := fmt.Sprintf("HyperLogLog%d", c.Bits)
 	s := newSketch(c.Bits, 4, c.RecvHash)
 	var err error
@@ -607,7 +634,12 @@ func checkHLLBytes(c hllBytesCase) *vk.Failure {
 	return f
 }
 
-func drawHLLBytes(t *rapid.T) hllBytesCase {
+func drawHLLBytes(t *rapid.T) vk.BytesCase {
+	c := drawHLLBytes1(t)
+	return vk.BytesCase{Data: append([]byte{hllSelector(c.Bits, c.RecvHash) + 6*byte(rapid.IntRange(0, 40).Draw(t, "selhi"))}, c.Data...)}
+}
+
+func drawHLLBytes1(t *rapid.T) hllBytesCase {
 	c := hllBytesCase{Bits: rapid.SampledFrom([]int{32, 64}).Draw(t, "bits"), RecvHash: rapid.IntRange(-1, 1).Draw(t, "recvhash")}
 	valid := func(label string) []byte {
 		h := c.RecvHash
@@ -667,7 +699,7 @@ func drawHLLBytes(t *rapid.T) hllBytesCase {
 }
 
 func TestHLLTotality(t *testing.T) {
-	vk.Run(t, "hll-total", vk.Opts{Quick: 30000, Thorough: 600000, NoCrumb: true}, drawHLLBytes, checkHLLBytes)
+	vk.Run(t, "hll-total", vk.Opts{Quick: 30000, Thorough: 600000, NoCrumb: true}, drawHLLBytes, checkHLLTotalBytes)
 }
 
 var _ = strings.Contains
